@@ -36,6 +36,11 @@ type Case struct {
 	Flags   []string        `json:"flags"`
 	Broken  string          `json:"broken,omitempty"` // text of a syntactically broken file, with its suffix in Kind
 	Suffix  string          `json:"suffix,omitempty"`
+	// Comment, when its length is > 0, adds one comment line of about that many bytes (words and numbers, so that a
+	// reader that takes part of it for data gets clauses) to a .cnf, .opb or .wcnf file; Where: 0 first line, 1 after
+	// the header / objective line, 2 last line.
+	Comment int `json:"comment,omitempty"`
+	Where   int `json:"where,omitempty"`
 }
 
 var workDir string
@@ -81,7 +86,42 @@ func execCLI(args ...string) run {
 
 var answerLine = regexp.MustCompile(`(?m)^(s |v |o |SATISFIABLE|UNSATISFIABLE)`)
 
+// withComment inserts the long comment line of the case into a text whose comment lines start with lead.
+func withComment(c Case, text, lead string) string {
+	if c.Comment <= 0 {
+		return text
+	}
+	var b strings.Builder
+	b.WriteString(lead + " generated")
+	for i := 0; b.Len() < c.Comment; i++ {
+		fmt.Fprintf(&b, " %d -%d 0 x", i%7+1, (i+3)%5+1)
+	}
+	b.WriteString(" 1 0 -1 0\n")
+	lines := strings.SplitAfter(text, "\n")
+	at := 0
+	switch c.Where {
+	case 1:
+		at = 1
+	case 2:
+		at = len(lines)
+	}
+	if at > len(lines) {
+		at = len(lines)
+	}
+	return strings.Join(lines[:at], "") + b.String() + strings.Join(lines[at:], "")
+}
+
 func fileText(c Case) (string, string) {
+	switch c.Kind {
+	case "cnf", "opb", "wcnf":
+		if c.Comment > 0 {
+			lead := map[string]string{"cnf": "c", "opb": "*", "wcnf": "c"}[c.Kind]
+			plain := c
+			plain.Comment = 0
+			text, suffix := fileText(plain)
+			return withComment(c, text, lead), suffix
+		}
+	}
 	switch c.Kind {
 	case "cnf":
 		return gs.Dimacs(c.N, c.Clauses), ".cnf"
@@ -132,6 +172,7 @@ func check(c Case, o *vf.Obs) error {
 		return fmt.Errorf("%w: VERIF_CLI not set", vf.ErrInconclusive)
 	}
 	o.Class("kind-" + c.Kind)
+	o.ClassIf(c.Comment > 4096, "comment-line>4096-bytes")
 	for _, f := range c.Flags {
 		o.Class("flag" + f)
 	}
@@ -510,10 +551,10 @@ func genCase(t *rapid.T) Case {
 			c.N, c.Clauses = gen.Pigeonhole(t, rapid.IntRange(2, 3).Draw(t, "holes"), gen.Chance(t, 1, 3, "drop"))
 		}
 	case "opb":
-		if gen.Chance(t, 1, 4, "knapsack") {
+		if gen.Chance(t, 1, 2, "knapsack") {
 			// two knapsack equalities, a weighted objective and a cost literal fixed by a unit constraint: with -cp the
 			// search takes hundreds of conflicts, its restarts and constraint-database reductions included
-			c.N = gen.Uniform(t, 14, 16, "n")
+			c.N = gen.Uniform(t, 15, 18, "n")
 			for i := 0; i < 2; i++ {
 				lits := gen.DistinctLits(t, c.N, gen.Uniform(t, c.N-2, c.N, "arity"), "l")
 				coefs := make([]int, len(lits))
@@ -585,6 +626,10 @@ func genCase(t *rapid.T) Case {
 			c.Suffix, c.Broken = br[0], br[1]
 		}
 	}
+	if (c.Kind == "cnf" || c.Kind == "opb" || c.Kind == "wcnf") && gen.Chance(t, 1, 8, "longComment") {
+		c.Comment = rapid.SampledFrom([]int{100, 3000, 4090, 4100, 5000, 9000, 70000}).Draw(t, "commentLen")
+		c.Where = rapid.IntRange(0, 2).Draw(t, "where")
+	}
 	k := c.Kind
 	if k == "unreadable" || k == "broken" {
 		k = strings.TrimPrefix(c.Suffix, ".")
@@ -604,9 +649,9 @@ func TestMain(m *testing.M) {
 }
 
 func init() {
-	vf.Register(vf.Sub[Case]{Name: "cli", Quick: 700, Thorough: 6000, Gen: genCase, Check: check, Floor: 0.5,
+	vf.Register(vf.Sub[Case]{Name: "cli", Quick: 400, Thorough: 6000, Gen: genCase, Check: check, Floor: 0.5,
 		Classes: map[string]float64{"kind-cnf": 0.05, "kind-opb": 0.05, "kind-wcnf": 0.05, "kind-bf": 0.05, "flag-count": 0.05, "flag-certified": 0.03, "flag-mus": 0.03, "flag-cp": 0.05, "flag-verbose": 0.05},
-		Rule:    "the executable is built from the tree and run on generated .cnf (odd clause shapes, 3-SAT, pigeonhole, clique-rich formulas mostly run with -cp), .opb (with/without objective of either sign; knapsack equalities over 14..16 variables mostly run with -cp), .wcnf and .bf files (conventional layout, n<=10) x flag sets {none, -verbose, -cp, -count, -verbose -count, -cp -verbose, -certified, -certified -verbose, -mus} (-certified is not combined with -cp: a RUP certificate cannot express the PB constraints that strategy learns, and the property lists the flags separately), plus unreadable paths, an unknown suffix and syntactically broken files; stdout is parsed: exactly one status line, the v line is a total model of the file, 's UNSATISFIABLE' only for unsatisfiable files, o lines strictly decreasing and ending in the brute-force optimum attained by the printed model, -count prints exactly the model count, the -certified lines replay as a RUP refutation, the -mus DIMACS block is a minimal unsatisfiable sub-multiset of the file; -verbose only adds comment lines; bad files: exit status != 0 and no answer line; non-trivial = file with >=2 constraints (or formula of size >=4, count >=2, an extracted MUS, a bad file)"})
+		Rule:    "the executable is built from the tree and run on generated .cnf (odd clause shapes, 3-SAT, pigeonhole, clique-rich formulas mostly run with -cp), .opb (with/without objective of either sign; knapsack equalities over 15..18 variables mostly run with -cp), .wcnf and .bf files (conventional layout, n<=10; one in eight .cnf/.opb/.wcnf files holds a comment line of 100 to 70 000 bytes made of words and numbers, as first, second or last line) x flag sets {none, -verbose, -cp, -count, -verbose -count, -cp -verbose, -certified, -certified -verbose, -mus} (-certified is not combined with -cp: a RUP certificate cannot express the PB constraints that strategy learns, and the property lists the flags separately), plus unreadable paths, an unknown suffix and syntactically broken files; stdout is parsed: exactly one status line, the v line is a total model of the file, 's UNSATISFIABLE' only for unsatisfiable files, o lines strictly decreasing and ending in the brute-force optimum attained by the printed model, -count prints exactly the model count, the -certified lines replay as a RUP refutation, the -mus DIMACS block is a minimal unsatisfiable sub-multiset of the file; -verbose only adds comment lines; bad files: exit status != 0 and no answer line; non-trivial = file with >=2 constraints (or formula of size >=4, count >=2, an extracted MUS, a bad file)"})
 }
 
 func TestCorpus(t *testing.T) { vf.Corpus(t) }
